@@ -370,7 +370,11 @@ pub fn allow_check<'a>(ctx: &mut Ctx, w: &'a World, nonce_s: &Scalar, amount: i6
         Some(_) => vec![Real::V("some".into()), Real::G1(book.g1a(d.st.c)), Real::G1(book.g1a(d.cl.c)), Real::G1(book.g1a(d.rl.c))],
         None => vec![Real::V("none".into())],
     };
-    let _ = ctx.expect(&op, &reals);
+    let (agree, mtoks) = ctx.expect_toks(&op, &reals);
+    if !agree && out.is_some() && matches!(mtoks.first(), Some(Tok::V(v)) if v == "none") {
+        ctx.violation(&format!("allow_payment accepts a pay proof ({}) that the model's acceptance predicate rejects", what),
+            json!({"class": format!("accepted-although-the-model-rejects:{}", what), "nonce": hex_s(nonce_s), "amount": amount, "context": hex::encode(ctx_bytes), "proof_bytes": hex::encode(d.bytes(&book))}));
+    }
     ctx.count(&format!("allow:{}:{}", what, out.is_some()));
     if let Some(e) = expect {
         if out.is_some() != e {
